@@ -301,6 +301,103 @@ async fn rep_owes_reply(ctx: &mut Ctx, p: usize, j: u32, repeats: u32, case: &Va
     }
 }
 
+/// REP owes a reply to client A; client B's malformed request (one frame, no delimiter)
+/// arrives during a recv call that the application then abandons. The protocol state is as
+/// if that call had not been made: the reply still goes to A, with A's envelope.
+async fn rep_owes_malformed(ctx: &mut Ctx, polls: u32, case: &Value) {
+    let mut sock = Sock::new("REP", None);
+    let (Ok(a), Ok(b)) = (Peer::attach(&sock, "DEALER", Some(b"A")).await, Peer::attach(&sock, "DEALER", Some(b"B")).await) else {
+        ctx.inconclusive("C14 attach".into());
+        return;
+    };
+    let req_a = rc::tagged(1, 1, &[4]);
+    let mut wire_a = vec![b"route".to_vec(), vec![]];
+    wire_a.extend(req_a.clone());
+    a.send(&wire_a);
+    if !matches!(recv_now(&mut sock).await, Some(Ok(_))) {
+        ctx.inconclusive("C14 rep_owes_malformed: first recv".into());
+        return;
+    }
+    b.send(&[b"no-delimiter-no-body".to_vec()]);
+    {
+        let mut rv = Managed::new(sock.recv());
+        for _ in 0..polls {
+            if rv.poll_once().is_ready() {
+                break;
+            }
+            sim::settle().await;
+        }
+    } // abandoned (or it had returned an error: the malformed request is reported or dropped)
+    ctx.count("rep_malformed_request_during_an_abandoned_recv");
+    let reply = rc::tagged(3, 1, &[2]);
+    let bb = b.conn.tap_len();
+    let r = sim::complete(sock.send(&reply)).await;
+    let mut want = vec![b"route".to_vec(), vec![]];
+    want.extend(reply.clone());
+    if !matches!(r, Ok(Ok(()))) || a.out_msgs().ok() != Some(vec![want.clone()]) || b.conn.tap_len() != bb {
+        ctx.violation_with(
+            "C14/rep-owed-reply-misrouted-after-drops",
+            format!(
+                "REP owed a reply to client A; client B's malformed request arrived during a recv that was abandoned after {polls} polls; the reply: send gave {r:?}, A received {:?} (expected {}), bytes written to B: {}",
+                a.out_msgs().map(|v| v.iter().map(|m| rc::frames_summary(m)).collect::<Vec<_>>()),
+                rc::frames_summary(&want),
+                b.conn.tap_len() - bb
+            ),
+            case.clone(),
+        );
+    }
+}
+
+/// REQ: the server puts a command frame on the connection before its reply, and the recv that
+/// meets it is abandoned. The socket's state is that of "request 1 outstanding" or of
+/// "request 1 failed" — never one in which a later request gets request 1's reply.
+async fn req_command_then_abandoned(ctx: &mut Ctx, polls: u32, case: &Value) {
+    let mut sock = Sock::new("REQ", None);
+    let Ok(p) = Peer::attach(&sock, "REP", Some(b"server")).await else {
+        ctx.inconclusive("C14 attach".into());
+        return;
+    };
+    if !matches!(sim::complete(sock.send(&rc::tagged(1, 1, &[2]))).await, Ok(Ok(()))) {
+        ctx.inconclusive("C14 req_cmd: send".into());
+        return;
+    }
+    p.conn.feed(&rc::ready(b"REP", None));
+    {
+        let mut rv = Managed::new(sock.recv());
+        for _ in 0..polls {
+            if rv.poll_once().is_ready() {
+                break;
+            }
+            sim::settle().await;
+        }
+    }
+    ctx.count("req_recv_abandoned_after_a_command_frame");
+    // the reply to request 1 comes late
+    let mut w = vec![vec![]];
+    w.extend(rc::tagged(100, 1, &[1]));
+    if !p.conn.reader_dropped() {
+        p.conn.feed(&rc::message(&w));
+    }
+    let q2 = rc::tagged(1, 2, &[2]);
+    let accepted = matches!(sim::complete(sock.send(&q2)).await, Ok(Ok(())));
+    if accepted && !p.conn.reader_dropped() {
+        let mut w2 = vec![vec![]];
+        w2.extend(rc::tagged(100, 2, &[1]));
+        p.conn.feed(&rc::message(&w2));
+    }
+    if let Some(Ok(m)) = recv_now(&mut sock).await {
+        let t = rc::parse_tag(&m, 0);
+        let want = if accepted { 2 } else { 1 };
+        if t.as_ref().map(|t| t.seq != want).unwrap_or(true) {
+            ctx.violation_with(
+                "C14/req-reply-paired-with-the-wrong-request",
+                format!("a command frame preceded reply 1, the recv meeting it was abandoned after {polls} polls; request 2 accepted: {accepted}; the next recv returned {t:?}"),
+                case.clone(),
+            );
+        }
+    }
+}
+
 /// A long run of messages already on the connection, drained the way `now_or_never()` or a
 /// `select!` with an always-ready other branch does it: every recv future is polled once
 /// and dropped if it did not finish — hundreds of times within one poll of the task, so
@@ -412,6 +509,16 @@ impl Prop for C14 {
                 }
             }
             if ty == "REP" {
+                for polls in 1..=3u32 {
+                    v.push(json!({"kind": "rep_owes_malformed", "polls": polls}));
+                }
+            }
+            if ty == "REQ" {
+                for polls in 1..=3u32 {
+                    v.push(json!({"kind": "req_cmd_abandoned", "polls": polls}));
+                }
+            }
+            if ty == "REP" {
                 for j in 0..=3u32 {
                     for repeats in 1..=3u32 {
                         v.push(json!({"kind": "rep_owes_batch", "j": j, "repeats": repeats}));
@@ -436,6 +543,14 @@ impl Prop for C14 {
 
     fn run(&self, case: &Value, ctx: &mut Ctx) {
         match s(case, "kind") {
+            "rep_owes_malformed" => {
+                ctx.eval(hash_str(&case.to_string()), true);
+                sim::run(rep_owes_malformed(ctx, u(case, "polls") as u32, case));
+            }
+            "req_cmd_abandoned" => {
+                ctx.eval(hash_str(&case.to_string()), true);
+                sim::run(req_command_then_abandoned(ctx, u(case, "polls") as u32, case));
+            }
             "burst" => {
                 ctx.eval(hash_str(&case.to_string()), true);
                 ctx.sample("burst", || case.clone());
